@@ -134,6 +134,12 @@ def run_template(prog, ctx, C):
         resolved.append(op)
         st_, exc = it.apply(op)
         status.append(st_)
+        if st_ == "raised_arg" and not op.get("fault"):
+            # the arguments of the call could not even be written down with the variables
+            # (indexing, arithmetic, waveform / pulse constructors) although the plain values
+            # are accepted: there is no template for this program
+            ctx.fail(C, f"template_arguments:{type(exc).__name__}",
+                     f"{op['op']}: {type(exc).__name__}: {str(exc)[:200]}", cont=True)
     it.resolved_ops = resolved
     return it, status
 
